@@ -401,7 +401,7 @@ def check_parser(ctx, model, cfg):
         ctx.spec_total += 1
         if not ok:
             klass = "sse-field-without-space-not-recognised" if nosp else "sse-stream-message-lost-or-reordered"
-            ctx.spec_violation(klass, {"kind": "parser", "text": text, "cuts": []},
+            ctx.spec_violation(klass, {"kind": "parser", "text": text, "cuts": [], "sent": _norm([absmsg(m) for m in sent])},
                                f"sent {[absmsg(m) for m in sent]} delivered {ref['delivered']}")
 
 
@@ -639,6 +639,11 @@ def check_establishment(ctx, model, cfg):
                 klass = "announced-endpoint-not-entered"
             ctx.spec_violation(klass, case, f"announced_at={sc['announce_at']} observed={impl}")
         judge_leftovers(ctx, model, case, o, "enter" if not o["enter"] else "exit")
+
+
+def _norm(msgs):
+    """Abstract messages as plain nested lists (what survives a JSON round trip)."""
+    return [[i, list(k), t] for i, k, t in msgs]
 
 
 def _jsonable(x):
@@ -1137,6 +1142,9 @@ def replay(ctx, data):
         print("handler calls:", o["acts"])
         bad = o["delivered"] != ref["delivered"] or data.get("class") == "sse-field-without-space-not-recognised" and \
             len(o["delivered"]) < text.count(b"jsonrpc")
+        if "sent" in case:                      # what the server put on the stream, in order
+            print("sent                     :", case["sent"])
+            bad = bad or _norm(ref["delivered"]) != case["sent"]
         print("REPRODUCED" if bad else "not reproduced")
         return 1 if bad else 0
     if kind == "establishment":
